@@ -2,6 +2,7 @@ import IceTie.AgentSwitch
 import IceTie.AgentSuccess
 import IceTie.AgentSelector
 import IceProofs.AgentC03Own
+import IceTie.Addr
 /-!
 # C03 — only validated and nominated pairs are ever selected
 
@@ -565,5 +566,18 @@ example : IceGen.controllingSelector_ContactCandidates false false false false f
       = [IceModel.Eff.call "sendBindingSuccess" [], IceModel.Eff.call "updateRequestReceived" [],
          IceModel.Eff.set "s.nominatedPair" (IceModel.Val.s "pair"), IceModel.Eff.call "nominatePair" [],
          IceModel.Eff.call "customHandler" []] := by decide
+
+/-- the source address a response is matched against (`netAddrToAddrPort`, `portFitsInUint16`; addr.go, regenerated): every port
+0 … 65535 — 65535 included — of a UDP or TCP address is valid, so a check answered from port 65535 is not discarded as coming from
+an invalid source -/
+theorem C03_code_source_port (isUDPAddr isTCPAddr : Bool) (port : Int64) (parseFails : Bool)
+    (hk : (isUDPAddr || isTCPAddr) = true) (h0 : 0 ≤ port.toInt) (h1 : port.toInt ≤ 65535) :
+    IceGen.portFitsInUint16 port = true ∧
+    IceGen.netAddrToAddrPort false isUDPAddr isTCPAddr false port parseFails = "a.AddrPort()" := by
+  refine ⟨?_, IceTie.Addr.netAddrToAddrPort_valid isUDPAddr isTCPAddr port parseFails hk h0 h1⟩
+  rw [IceTie.Addr.portFitsInUint16_tie]
+  simp [h0, h1]
+
+example : IceGen.portFitsInUint16 65535 = true := by decide
 
 end IceProps.C03
